@@ -277,6 +277,15 @@ def props_of(conj, sig, group):
         if conj in ('errpath', 'rejects'):
             ps.add('C12')
         return ps
+    if kind == 'emb':
+        ps.add('C18')
+        if conj == 'nopanic':
+            ps.add('C13')
+        if conj == 'observers':
+            ps.add('C05')
+        if conj == 'errpath':
+            ps.add('C12')
+        return ps
     if conj in ('class', 'value', 'effect', 'initmatch'):
         ps.add('C01')
         if kind == 'ovl':
